@@ -240,13 +240,15 @@ Definition pause_plain (t : fid) (c : ctxk) (s : st) : st :=
   | COverride cid var _ => var_set var (ci_old (ci_get (t, cid) s)) s
   end.
 
-(* AsyncContext.__exit__ (contexts.py 93-99): leave_context, then pause() *)
+(* AsyncContext.__exit__ (contexts.py 93-104): leave_context, then pause() - unless the task's contexts
+   are already paused (the block is being left by generator.close() of a task completed while suspended) *)
 Definition exit_ctx (t : fid) (c : ctxk) (s : st) : st :=
-  let s1 := match get_task t s with
-            | Some tk => set_task t (tk_with_ctxs tk (remove_ctx c (tk_ctxs tk)) (tk_cact tk)) s
-            | None => s
-            end in
-  pause_plain t c s1.
+  match get_task t s with
+  | Some tk =>
+    let s1 := set_task t (tk_with_ctxs tk (remove_ctx c (tk_ctxs tk)) (tk_cact tk)) s in
+    if tk_cact tk then pause_plain t c s1 else s1
+  | None => pause_plain t c s
+  end.
 
 (* FutureBase.set_value / set_error on a task + AsyncTask._computed (async_task.py 150-162):
    a live generator is closed, which runs the __exit__ of every open with-block, innermost first *)
